@@ -305,12 +305,12 @@ def gen_cases(rng, tier, h):
         cases.append(_case_seq3(d, with_iter=max(d) <= 6))
     for d in itertools.product(range(0, m2 + 1), repeat=2):
         cases.append(_case_seq2(d))
-    for _ in range(300 if tier == "quick" else 3000):
+    for _ in range(300 if tier == "quick" else 20000):
         cases.append(_case_large(rng))
     cases.extend(_cases_regions(rng, tier))
     cases.extend(_cases_empty_arrays())
     cases.extend(_cases_adaptors_exhaustive(rng, tier))
-    for _ in range(600 if tier == "quick" else 8000):
+    for _ in range(600 if tier == "quick" else 40000):
         cases.append(_case_history(rng))
     return cases
 
